@@ -12,10 +12,12 @@ import (
 	"fmt"
 	"math"
 	"os"
+	"os/signal"
 	"runtime"
 	"strconv"
 	"strings"
 	"sync"
+	"syscall"
 	"testing"
 	"time"
 )
@@ -529,5 +531,28 @@ func TestVerifC18(t *testing.T) {
 			continue
 		}
 		o.line("retry "+c.request(), obs[i])
+	}
+	// 3. the wrappers after the process has handled a termination signal of its own: Retry / RetrySome cancel on
+	// SIGINT/SIGTERM *during* a call only; an earlier signal, survived by the program, must not affect later calls
+	sigc := make(chan os.Signal, 4)
+	signal.Notify(sigc, syscall.SIGTERM)
+	defer signal.Stop(sigc)
+	warm := c18case{cfg: ExpBackOff{BackOff: 1, Max: 10}, retries: 2, outs: "ro", ctx: "-", trials: 1, via: 1}
+	first, _ := c18run(warm)
+	o.line("retry "+warm.request(), first)
+	if err := syscall.Kill(os.Getpid(), syscall.SIGTERM); err == nil {
+		select {
+		case <-sigc:
+		case <-time.After(2 * time.Second):
+		}
+		time.Sleep(20 * time.Millisecond)
+		for _, c := range []c18case{
+			{cfg: ExpBackOff{BackOff: 1, Max: 10}, retries: 3, outs: "rro", ctx: "-", trials: 1, via: 1},
+			{cfg: ExpBackOff{BackOff: 1, Max: 10, KeepErrs: 2}, retries: 2, outs: "rr", ctx: "-", trials: 1, via: 2},
+			{cfg: ExpBackOff{BackOff: 1, Max: 10}, retries: 1, outs: "o", ctx: "-", trials: 1, via: 2},
+		} {
+			res, _ := c18run(c)
+			o.line("retry "+c.request(), res)
+		}
 	}
 }
